@@ -246,6 +246,39 @@ def memory_training_cases(run, cols):
                         theorem="C09_cache_hit_needs_equal_key")
 
 
+def override_cases(run, cols):
+    """get_rater(..., **overrides) with other hyper-parameters: later ratings
+    with the named regressor are those of its documented defaults"""
+    import copy as _copy
+    from nanite.rate import get_rater
+    from nanite.rate.regressors import reg_dict
+    st = states(cols)
+    for reg, over in [("Extra Trees", dict(n_estimators=3, max_depth=2,
+                                           random_state=7)),
+                      ("Decision Tree", dict(max_depth=1, random_state=3))]:
+        key = f"overrides:{reg}"
+        run.case({"scenario": "overrides", "regressor": reg},
+                 kind="overrides")
+        try:
+            with warnings.catch_warnings():
+                warnings.simplefilter("ignore")
+                defaults = _copy.deepcopy(reg_dict[reg][1])
+                v0 = st["fitted"]().rate_quality(regressor=reg)
+                get_rater(reg, training_set="zef18", **over)
+                v1 = st["fitted"]().rate_quality(regressor=reg)
+                now = reg_dict[reg][1]
+        except BaseException as e:
+            run.failing(SITE, key, f"raised {type(e).__name__}: {e}",
+                        payload={"kind": "rerun"})
+            continue
+        if v0 != v1 or now != defaults:
+            run.failing(SITE, key, f"{reg}: rating {v0} before and {v1} after "
+                        f"somebody called get_rater with {over}; default "
+                        f"hyper-parameters now {now}",
+                        payload={"kind": "rerun"},
+                        theorem="C09_cache_hit_needs_equal_key")
+
+
 def real_oracle(run, regs, cols, big_cols):
     for sname, mk in states(cols).items():
         for reg in regs:
@@ -411,6 +444,7 @@ def check(run):
                   ["SVR (linear kernel)", "SVR (RBF kernel)", "Decision Tree",
                    "Extra Trees", "AdaBoost"])
     memory_training_cases(run, big)
+    override_cases(run, big)
     rating_histories(run, big, ["Decision Tree", "Extra Trees"]
                      if run.tier == "quick" else
                      ["Decision Tree", "Extra Trees", "SVR (linear kernel)"])
